@@ -435,6 +435,19 @@ def sparse_one(run, seed, idx, mods):
     nl = sparseframe.sparse_localmax(wfr)
     if nl != res[0][0] or not np.array_equal(wfr.pixels["localmax"], res[0][1]) or wfr.meta["localmax"]["nlabel"] != nl:
         run.violation("sparseframe.sparse_localmax", "wrapper labels differ from the kernel result", desc)
+    # previous content of the output at the level of the frame: the frame already holds something under the label name
+    # (compact uint8 / bool labels of an earlier, coarser labelling, int32 garbage); the new labels are those of the kernel
+    for stale in (np.zeros(wfr.nnz, bool), (np.arange(wfr.nnz) % 200).astype(np.uint8),
+                  np.full(wfr.nnz, -7, np.int32), np.zeros(wfr.nnz, np.int64)):
+        fr3 = sparseframe.sparse_frame(wfr.row.copy(), wfr.col.copy(), wfr.shape,
+                                       pixels={"intensity": np.array(wfr.pixels["intensity"], copy=True), "localmax": stale.copy()})
+        n3 = sparseframe.sparse_localmax(fr3)
+        run.count("sparse_localmax_over_existing_label_array")
+        if n3 != res[0][0] or not np.array_equal(np.asarray(fr3.pixels["localmax"], np.int64), np.asarray(res[0][1], np.int64)):
+            run.violation("sparseframe.sparse_localmax:existing-label-array", "a frame that already held a %s array under the label "
+                          "name gets labels that differ from the kernel result (%d distinct values for %d maxima)"
+                          % (stale.dtype, len(np.unique(fr3.pixels["localmax"])), res[0][0]), desc)
+            break
     # a second labelling must not disturb the first: another signal of the same frame under another name, then another
     # frame with exactly as many pixels (the wrapper allocates per call; labels stored in a frame belong to that frame)
     first = wfr.pixels["localmax"].copy()
